@@ -53,6 +53,8 @@ type Dir struct {
 	Args []string  `json:"args"`
 	Sub  []SubLine `json:"sub,omitempty"`
 	Has  bool      `json:"has"`
+	// After: tokens written after the closing brace of the block, on its line ("} y")
+	After []string `json:"after,omitempty"`
 }
 
 type Case struct {
@@ -98,6 +100,9 @@ func (c *Case) text() string {
 			sb.WriteString(" {\n")
 			renderSub(&sb, d.Sub, 2)
 			sb.WriteString("\t}")
+			for _, a := range d.After {
+				sb.WriteString(" " + quote(a))
+			}
 		}
 		sb.WriteString("\n")
 	}
@@ -379,7 +384,12 @@ func genDir(t *rapid.T, lb string) Dir {
 	nm := rapid.IntRange(0, 3).Draw(t, lb+"nm")
 	for i := 0; i < nm; i++ {
 		m := fmt.Sprintf("%sm%d", lb, i)
-		switch rapid.IntRange(0, 5).Draw(t, m+"k") {
+		switch rapid.IntRange(0, 6).Draw(t, m+"k") {
+		case 6: // a token after the closing brace, on the same line
+			d.Has = true
+			if len(d.After) < 2 {
+				d.After = append(d.After, genValue(t, m+"after"))
+			}
 		case 0: // drop an argument
 			if len(d.Args) > 0 {
 				j := rapid.IntRange(0, len(d.Args)-1).Draw(t, m+"j")
